@@ -1,5 +1,6 @@
 CFG = {
     "lean_targets": ["Norad.Props.C04"],
+    "extract": "roundtrip",
     "audit": "Norad/Audit/C04.lean",
     "rule": ("inputs on disk: every UFO (13) and glif (71) under the repository's testdata (copied to scratch), generated font descriptions rendered by the harness' own "
              "writer (not norad's) as format 3 (2/3 of the cases), 2 and 1 trees, and generated glyphs rendered as format 2 / 1 glif documents, all with randomised legal surface "
@@ -18,6 +19,7 @@ CFG = {
     "timeout": {"quick": 600, "thorough": 7200},
     "search_timeout": 90,
     "trusted_base": COMMON_TRUST + [
+        "source-level tie (DESIGN 11.8): tools/extract_roundtrip.py reads the glif writer's per-attribute gates and formatting (serialize.rs), the glif parser's defaults (parse.rs, mod.rs), the optional-file gates of save_impl / layerinfo and what load gives for absent files (font.rs, layer.rs, fontinfo.rs) and the tests, constants and casts of the three number writers (kerning.rs, fontinfo.rs) on every run; the regex translator is trusted in one direction only (a wrong extraction can fail a source_* theorem or fall back to the pinned section, it cannot make a false theorem check); control flow outside these shapes is tied by behaviour only",
         "the independent renderer of harness/src/c04.rs (it decides what a tree / glif document 'says'); fontinfo.plist key/value pairs come from plist::to_value(&FontInfo) (norad's serde table, checked against the specification by C05)",
         "format 1/2 conversion of font info, groups and kerning at the first load is not modelled here (C14/C15/C10): for legacy trees only the fixed point after the first load is checked",
         "everything listed for C01 (plist crate, f64 formatting, opaque glyph / font-info / store tokens)",
@@ -33,7 +35,7 @@ MANIFEST = {
     "text": ("Theorems: norad_output_is_fixed_point (for every valid font inside the number guards, load(save(f)) is again a valid font inside the guards and one more save+load returns "
              "the same font: layers in order, colours, libs as maps, numbers within tolerance, features up to CR LF), rtFont_valid / rtFont_numbers (what load(save(f)) returns is "
              "representable), output_is_v3 (whatever was loaded, what is written says creator norad, formatVersion 3), objectlibs_key_without_fontinfo_counterexample (recorded finding: "
-             "a loadable tree whose loaded font cannot be saved), layers_default_moved_to_front. Correspondence: testdata UFOs and glifs + generated trees/glifs with randomised surface "
+             "a loadable tree whose loaded font cannot be saved), layers_default_moved_to_front. Source-level tie: source_absent_reads_match_model, source_absent_files_read_as_empty, source_gates_match_defaults (reader defaults = writer gates, from the Rust of the run). Correspondence: testdata UFOs and glifs + generated trees/glifs with randomised surface "
              "syntax through Font::load / Font::save / Font::load and Glyph::parse_raw / encode_xml / parse_raw, model saveFont/loadFont on the loaded font, specification oracle."),
     "design_ref": "5 / C01-C04, section 6",
     "note": "trusted: Lean kernel + 3 standard axioms; harness/driver glue incl. the independent renderer; legacy conversion at first load belongs to C14/C15; glif events belong to C02/C12",
